@@ -20,6 +20,11 @@ from . import doctests as gd
 
 # kind -> (lines, is_expr)   ; stdout / values come from the reference execution
 def stmt_lines(kind, k, ref=None):
+    if kind == 'kwcomment':
+        # an ordinary comment that merely STARTS with a word which, on the FIRST line only, disables a doctest
+        return ['# %s inputs are reported below (%d)' % (['failing', 'Disable', 'script', 'UNSTABLE', 'slow_doctest'][k % 5], k)]
+    if kind == 'compoundraise':
+        return ['if t(%d) >= 0:' % k, '    print("r%d")' % k, '    raise ValueError("m%d")' % k]
     # helpers whose BODY must never run unless the program drives them (it never does): the body records -1-k
     if kind == 'corodef':
         return ['async def cf%d(a=t(%d)):' % (k, k), '    T.append(-1 - %d)' % k, '    print("coro body %d")' % k, '    return a']
@@ -90,14 +95,21 @@ def value_want(s):
 
 
 EXPR_KINDS = {'print', 'expr', 'strexpr', 'both', 'multiexpr', 'multiprint', 'awaitexpr'} | VALUE_KINDS
-SINGLE_LINE = {'assign', 'print', 'expr', 'strexpr', 'both', 'print2', 'semicolon', 'await', 'awaitexpr', 'comment',
+SINGLE_LINE = {'kwcomment', 'raise', 'printraise', 'callraise', 'assign', 'print', 'expr', 'strexpr', 'both', 'print2', 'semicolon', 'await', 'awaitexpr', 'comment',
                'starimport', 'directive'} | VALUE_KINDS
-COMPOUND = {'compound', 'forloop', 'classdef', 'decorated', 'decorated2', 'asyncdef', 'deffn', 'with', 'corodef', 'gendef', 'agendef',
+COMPOUND = {'compoundraise', 'compound', 'forloop', 'classdef', 'decorated', 'decorated2', 'asyncdef', 'deffn', 'with', 'corodef', 'gendef', 'agendef',
             'awaitabledef'}
-NO_TRACE = {'comment', 'starimport', 'directive'}
+NO_TRACE = {'comment', 'kwcomment', 'starimport', 'directive'}
+# statements that RAISE (some after writing): kind -> last line of format_exception_only
+RAISE_KINDS = {'raise': 'ValueError: m%d', 'printraise': 'ValueError: m%d', 'callraise': "KeyError: 'b%d'",
+               'compoundraise': 'ValueError: m%d'}
+
+
+def traceback_want(s):
+    return ['Traceback (most recent call last):', '    ...', RAISE_KINDS[s.kind] % s.k]
 KINDS = ['assign', 'print', 'expr', 'strexpr', 'both', 'multi', 'multiexpr', 'multiprint', 'compound', 'decorated',
          'classdef', 'tripstr', 'tripbare', 'print2', 'backslash', 'semicolon', 'forloop', 'lambda', 'multicomment',
-         'asyncdef', 'deffn', 'dictml', 'await', 'awaitexpr', 'comment', 'with', 'multicomment0', 'decorated2',
+         'asyncdef', 'deffn', 'dictml', 'await', 'awaitexpr', 'comment', 'kwcomment', 'with', 'multicomment0', 'decorated2',
          'corocall', 'gencall', 'agencall', 'awaitableval', 'funcvalue', 'lambdavalue']
 ASYNC_KINDS = {'await', 'awaitexpr'}
 # an inline directive sits on the statement's only line, or on the FIRST line of a multi-line one (e.g. a decorator)
@@ -186,6 +198,16 @@ class Program(object):
     def source(self):
         return '\n'.join(self.program_lines) + '\n'
 
+    def has_raise(self):
+        return any(s.kind in RAISE_KINDS for s in self.stmts)
+
+    def unexpected_raise(self):
+        """index of the first raising statement without a traceback want (the doctest must fail there), or None"""
+        for i, s in enumerate(self.stmts):
+            if s.kind in RAISE_KINDS and s.want is None:
+                return i
+        return None
+
     def uses_await(self):
         return any(s.kind in ASYNC_KINDS for s in self.stmts)
 
@@ -252,6 +274,48 @@ def reference(source, uses_await=False):
     return list(T), buf.getvalue(), canon_bindings(ns, injected), err
 
 
+def reference_stmtwise(prog):
+    """for programs with raising statements: the statements executed one after the other in ONE dict, an exception of
+    a statement that carries a traceback want is caught and execution goes on, any other ends it.
+    returns (TRACE, stdout, bindings, error-or-None, stdout per statement ('' for statements never reached))"""
+    ns, T = gd.make_namespace({})
+    ns['__file__'] = '<ref>'
+    injected = set(ns)
+    outs = []
+    err = None
+    stopped = False
+    with warnings.catch_warnings():
+        warnings.simplefilter('ignore')
+        for s in prog.stmts:
+            if stopped:
+                outs.append('')
+                continue
+            buf = io.StringIO()
+            try:
+                flags = ast.PyCF_ALLOW_TOP_LEVEL_AWAIT if s.kind in ASYNC_KINDS else 0
+                code = compile('\n'.join(s.exec_lines()) + '\n', '<reference>', 'exec', flags=flags, dont_inherit=True)
+                with contextlib.redirect_stdout(buf):
+                    if code.co_flags & inspect.CO_COROUTINE:
+                        asyncio.run(eval(code, ns))
+                    else:
+                        exec(code, ns)
+            except Exception as ex:
+                if s.kind in RAISE_KINDS:
+                    stopped = s.want is None
+                else:
+                    err = '%s: %s' % (type(ex).__name__, ex)
+                    stopped = True
+            outs.append(buf.getvalue())
+    return list(T), ''.join(outs), canon_bindings(ns, injected), err, outs
+
+
+def reference_prog(prog):
+    """(TRACE, stdout, bindings, error) of the plain program"""
+    if prog.has_raise():
+        return reference_stmtwise(prog)[:4]
+    return reference(prog.source, prog.uses_await())
+
+
 def canon_bindings(ns, injected=()):
     out = {}
     for k, v in ns.items():
@@ -270,6 +334,9 @@ def canon_bindings(ns, injected=()):
 
 def per_statement_stdout(prog):
     """stdout written by each statement alone, from the cumulative reference execution of prefixes"""
+    if prog.has_raise():
+        r = reference_stmtwise(prog)
+        return [None] * len(prog.stmts) if r[3] else r[4]
     outs = []
     prev = ''
     lines = []
@@ -283,7 +350,27 @@ def per_statement_stdout(prog):
 
 
 # ------------------------------------------------------------------------------- random programs
-def gen_program(rng, max_len=7, allow_await=True, allow_star=False, allow_directive=True, wants=True):
+IGNORE_TAGS = ['DisableDoctest:', 'DisableExample:', 'SkipDoctest:', 'Ignore:', 'Script:', 'Benchmark:', 'Sympy:']
+
+
+def ignored_block_header(rng):
+    """text before the doctest that holds a block the freeform collector documents as NOT a doctest (source lines
+    AND want lines, none of which is executed or displayed), closed by a line of prose"""
+    tag = rng.choice(IGNORE_TAGS)
+    if rng.random() < 0.3:
+        tag = tag.lower()
+    out = ['Summary line.', '', tag]
+    for i in range(rng.randint(1, 2)):
+        out.append('    >>> not_run_%d()' % i)
+        for j in range(rng.randint(0, 3)):
+            out.append('    ignored output %d' % j)
+    if rng.random() < 0.5:
+        out.append('')
+    out.append('Usage text.')
+    return out
+
+
+def gen_program(rng, max_len=7, allow_await=True, allow_star=False, allow_directive=True, wants=True, allow_raise=True):
     n = rng.randint(1, max_len)
     kinds = list(KINDS)
     if not allow_await:
@@ -292,6 +379,8 @@ def gen_program(rng, max_len=7, allow_await=True, allow_star=False, allow_direct
         kinds = kinds + ['starimport', 'starimport']
     if allow_directive:
         kinds = kinds + ['directive']
+    if allow_raise and rng.random() < 0.35:
+        kinds = kinds + ['printraise', 'printraise', 'compoundraise', 'raise', 'callraise']
     stmts = []
     while len(stmts) < n:
         kind = rng.choice(kinds)
@@ -311,13 +400,24 @@ def gen_program(rng, max_len=7, allow_await=True, allow_star=False, allow_direct
         if allow_directive and kind in INLINE_OK and rng.random() < 0.12:
             inline = rng.choice(['+ELLIPSIS', '+NORMALIZE_WHITESPACE', '-IGNORE_WANT'])
         stmts.append(Stmt(kind, k, style, term, inline, ref))
+    # a raising statement is EXPECTED (traceback want, the doctest goes on) or, as last statement, unexpected
+    for i, st in enumerate(stmts):
+        if st.kind in RAISE_KINDS:
+            st.terminator = False
+            if rng.random() < 0.8:
+                st.want = traceback_want(st)
+            else:
+                del stmts[i + 1:]
+                break
     # never start with something that disables the whole doctest / is not a statement
-    if stmts[0].kind in ('comment', 'directive'):
+    if stmts[0].kind in ('comment', 'kwcomment', 'directive'):
         stmts[0] = Stmt('assign', 0, 'new')
     indent = rng.choice(['', '', '    ', '  ', '\t', '        ', '    \t'])
     header = rng.choice([[], [], ['Some text first.', ''], ['Example:']]) if indent else rng.choice([[], ['Intro text.', '']])
     if header == ['Example:'] and not indent.strip(' ') == '':
         header = []
+    if rng.random() < 0.2:
+        header = ignored_block_header(rng)
     prog = Program(stmts, indent, header)
     if wants:
         place_wants(prog, rng)
@@ -341,9 +441,17 @@ def place_wants(prog, rng, prob=0.45, layout=True):
         if layout and i > 0 and boundary and rng.random() < 0.45:
             shift = rng.choice(SHIFTS)
         s.shift = shift
-        acc += o
         last = (i == nst - 1)
         seps = ['blank', 'prose'] + (['shallow'] if (layout and prog.column(s) > 0) else [])
+        if s.kind in RAISE_KINDS:
+            # an expected exception (traceback want, set by gen_program): what its part wrote is logged for the part
+            # but is not compared with any want
+            s.sep = rng.choice([None, None] + seps) if (not last and s.want is not None) else None
+            boundary = True
+            # output of earlier statements of the SAME part is logged with it and never offered to a later want
+            acc = ''
+            continue
+        acc += o
         if s.kind in NO_TRACE:
             boundary = False
             if not last and rng.random() < 0.2:
